@@ -28,6 +28,28 @@ class _Continue(Exception):
     pass
 
 
+class Closure:
+    def __init__(self, node, env):
+        self.node = node
+        self.env = env
+
+    def __call__(self, *args):
+        params = [a.arg for a in self.node.args.args]
+        env = dict(self.env)
+        env.update(zip(params, args))
+        try:
+            run_body(self.node.body, env)
+        except _Return as r:
+            return r.v
+        return None
+
+
+PURE_METHODS = {list: {'index', 'count', 'copy'}, tuple: {'index', 'count'}, dict: {'get', 'keys', 'values', 'items', 'copy'},
+                str: {'startswith', 'endswith', 'strip', 'lower', 'upper', 'split', 'format', 'join', 'replace'}}
+BUILTINS = {'str': str, 'int': int, 'float': float, 'bool': bool, 'list': list, 'tuple': tuple, 'dict': dict, 'len': len, 'isinstance': isinstance, 'sorted': sorted,
+            'reversed': lambda x: list(reversed(x)), 'range': lambda *a: list(range(*a)), 'enumerate': lambda x: list(enumerate(x)), 'min': min, 'max': max, 'any': any, 'all': all}
+
+
 class Raised(Exception):
     """the evaluated code executed a raise statement (or used a local that no path bound)"""
     def __init__(self, what):
@@ -57,6 +79,8 @@ def ev(e, env):
     if isinstance(e, ast.Constant):
         return e.value
     if isinstance(e, ast.Name):
+        if e.id not in env and e.id in BUILTINS:
+            return BUILTINS[e.id]
         if e.id not in env:
             if env.get('__strict_locals__'):
                 raise Raised('UnboundLocalError: %s' % e.id)
@@ -64,12 +88,29 @@ def ev(e, env):
         return env[e.id]
     if isinstance(e, (ast.GeneratorExp, ast.ListComp)):
         return _comprehension(e, env)
+    if isinstance(e, ast.Slice):
+        return slice(ev(e.lower, env) if e.lower is not None else None, ev(e.upper, env) if e.upper is not None else None, ev(e.step, env) if e.step is not None else None)
     if isinstance(e, ast.Subscript):
         o, k = ev(e.value, env), ev(e.slice, env)
         try:
             return o[k]
-        except (KeyError, IndexError) as ex:
+        except (KeyError, IndexError, TypeError) as ex:
             raise Raised('%s: %r' % (type(ex).__name__, k))
+    if isinstance(e, ast.Call) and isinstance(e.func, ast.Name) and not e.keywords and (isinstance(env.get(e.func.id), Closure) or (e.func.id not in env and e.func.id in BUILTINS and e.func.id not in ('any', 'all', 'len', 'list', 'bool', 'type'))):
+        fn_ = env.get(e.func.id) or BUILTINS[e.func.id]
+        try:
+            return fn_(*[ev(a, env) for a in e.args])
+        except (KeyError, IndexError, ValueError, TypeError) as ex:
+            raise Raised('%s' % type(ex).__name__)
+    if isinstance(e, ast.Call) and isinstance(e.func, ast.Attribute) and not e.keywords:
+        o_ = ev(e.func.value, env)
+        for ty_, meths_ in PURE_METHODS.items():
+            if isinstance(o_, ty_) and not isinstance(o_, Obj) and e.func.attr in meths_:
+                try:
+                    r_ = getattr(o_, e.func.attr)(*[ev(a, env) for a in e.args])
+                except (KeyError, IndexError, ValueError, TypeError) as ex:
+                    raise Raised('%s' % type(ex).__name__)
+                return list(r_) if e.func.attr in ('keys', 'values', 'items') else r_
     if isinstance(e, ast.Call) and isinstance(e.func, ast.Name) and e.func.id in ('any', 'all', 'len', 'list', 'bool', 'id', 'type') and not e.keywords and len(e.args) == 1:
         a = ev(e.args[0], env)
         if e.func.id == 'type':
@@ -88,9 +129,9 @@ def ev(e, env):
             return getattr(o, e.func.attr)()
     if isinstance(e, ast.Attribute):
         o = ev(e.value, env)
-        if not isinstance(o, Obj) or e.attr not in o.__dict__:
-            raise AnalysisError('pure evaluator: attribute %s not modelled' % norm(e))
-        return getattr(o, e.attr)
+        if hasattr(o, '__dict__') and e.attr in vars(o):
+            return vars(o)[e.attr]
+        raise AnalysisError('pure evaluator: attribute %s not modelled' % norm(e))
     if isinstance(e, ast.Tuple):
         return tuple(ev(x, env) for x in e.elts)
     if isinstance(e, ast.List):
@@ -176,6 +217,20 @@ def run_body(stmts, env):
             continue
         elif isinstance(s, ast.Raise):
             raise Raised(norm(s.exc) if s.exc is not None else 're-raise')
+        elif isinstance(s, ast.FunctionDef) and not s.decorator_list:
+            env[s.name] = Closure(s, env)
+        elif isinstance(s, ast.Try) and not s.finalbody:
+            try:
+                run_body(s.body, env)
+            except Raised as ex:
+                for h in s.handlers:
+                    if h.type is None or norm(h.type) in ('Exception', 'BaseException') or norm(h.type) in ex.what:
+                        run_body(h.body, env)
+                        break
+                else:
+                    raise
+            else:
+                run_body(s.orelse, env)
         else:
             raise AnalysisError('pure evaluator: unsupported statement %s' % norm(s))
 
